@@ -1,12 +1,16 @@
 import Oracle.Proto
 import Oracle.Mailbox
+import Oracle.ActorSys
+import Oracle.DeadLetters
 /-! Oracle suites of property C02 (shared with C01). -/
 namespace Oracle.C02
 
 def suites : List (String × Suite) := [
   ("mailbox-facts", Oracle.Mailbox.factsSuite),
   ("mailbox", Oracle.Mailbox.model),
-  ("mailbox-judge-c02", Oracle.Mailbox.judge false)
+  ("mailbox-judge-c02", Oracle.Mailbox.judge false),
+  ("actorsys", Oracle.ActorSys.model),
+  ("deadletters-judge", Oracle.DeadLetters.judge)
 ]
 
 end Oracle.C02
